@@ -79,6 +79,9 @@ pub struct Opts {
     pub oracles: bool,
     pub keep_log: bool,
     pub collect_distinct: bool,
+    /// no snapshots at all: only the real calls, the ledger and the allocator (used when the
+    /// executor itself is the oracle: Miri, AddressSanitizer)
+    pub lean: bool,
 }
 impl Default for Opts {
     fn default() -> Self {
@@ -86,8 +89,12 @@ impl Default for Opts {
             oracles: true,
             keep_log: false,
             collect_distinct: true,
+            lean: lean_mode(),
         }
     }
+}
+pub fn lean_mode() -> bool {
+    std::env::var_os("CACHESIM_LEAN").is_some()
 }
 
 #[derive(Clone, Debug, PartialEq)]
@@ -166,6 +173,9 @@ impl<'a> Run<'a> {
     }
 
     fn snapshot(&mut self, s: &dyn Subject, step: i64, op: &Op) -> Option<Alpha> {
+        if self.opts.lean {
+            return None;
+        }
         let relaxed = self.faulted;
         match catch_unwind(AssertUnwindSafe(|| s.snapshot(relaxed))) {
             Ok(a) => Some(a),
